@@ -136,7 +136,6 @@ Record R (w : world) (A : astate) : Prop := {
   r_ok : world_okr2 w (as_live A) (as_issued A);
   r_reg : as_reg A = w_reg w;
   r_unlocked : is_locked w = false;
-  r_nolistener : w_listener w = None;
   r_ents : forall e, e ∈ as_live A -> exists a, assoc_get e (as_ents A) = Some a /\ views w (as_reg A) e a;
 }.
 
@@ -156,7 +155,7 @@ Lemma R_transfer w w' A :
       forall id, comp_val w' e id = comp_val w e id) ->
   R w' A.
 Proof.
-  intros [K Hr Hu Hl He] K' Hreg Hlocks Hlis Htb Hsame. split; try done; try congruence.
+  intros [K Hr Hu He] K' Hreg Hlocks Hlis Htb Hsame. split; try done; try congruence.
   - unfold is_locked. by rewrite Hlocks.
   - intros e Hin. destruct (He e Hin) as (a & Ha & V). exists a. split; [done|].
     destruct (Hsame e Hin) as (A1 & A2 & A3). by apply (views_keep w).
@@ -164,7 +163,7 @@ Qed.
 
 Lemma live_ne_fresh w A e e' : R w A -> e ∉ as_issued A -> e' ∈ as_live A -> e' <> e.
 Proof.
-  intros [[_ [frees P] _] _ _ _ _] Hni Hin ->. apply Hni. by apply (Proofs.PoolInv.pi_live_issued _ _ _ _ P).
+  intros [[_ [frees P] _] _ _ _] Hni Hin ->. apply Hni. by apply (Proofs.PoolInv.pi_live_issued _ _ _ _ P).
 Qed.
 
 Lemma arel_none_new reg ids : arel reg (new_mask ids) = None -> True.
@@ -197,7 +196,7 @@ Lemma R_update w w' A e f :
   (forall a, assoc_get e (as_ents A) = Some a -> views w (as_reg A) e a -> views w' (as_reg A) e (f a)) ->
   R w' (a_upd A e f).
 Proof.
-  intros [K Hr Hu Hl He] Hin K' Hreg Hlocks Hlis Htb Hoth Hnew.
+  intros [K Hr Hu He] Hin K' Hreg Hlocks Hlis Htb Hoth Hnew.
   destruct (He e Hin) as (a & Ha & V). unfold a_upd. rewrite Ha.
   split; simpl; try done; try congruence.
   - unfold is_locked. by rewrite Hlocks.
@@ -215,7 +214,7 @@ Lemma R_exchange w A e add rem rel w' x :
   exchange_nn w e add rem rel = Some (w', Some x) ->
   R w' (a_upd A e (fun a => a_exchange (as_reg A) a add rem rel)).
 Proof.
-  intros HR Hiss Hadd H. pose proof HR as [K Hr Hu Hl He].
+  intros HR Hiss Hadd H. pose proof HR as [K Hr Hu He].
   assert (Hlive : e ∈ as_live A) by (eapply chk_alive_live_r; [exact K|done|by eapply exchange_alive]).
   rewrite Hr in Hadd.
   destruct (exchange_rok w (as_live A) e add rem rel w' x (r2_ok _ _ _ K) Hlive Hadd H)
@@ -265,7 +264,7 @@ Lemma R_set_relation w A e rid tg w' evs :
   R w A -> e ∈ as_issued A -> op_set_relation w e rid tg = (w', Ok VUnit, evs) ->
   R w' (a_upd A e (fun a => mkA (a_mask a) tg (a_vals a))).
 Proof.
-  intros HR Hiss H. pose proof HR as [K Hr Hu Hl He].
+  intros HR Hiss H. pose proof HR as [K Hr Hu He].
   assert (Hlive : e ∈ as_live A) by (eapply chk_alive_live_r; [exact K|done|by eapply set_relation_alive]).
   destruct (set_relation_rok w (as_live A) e rid tg w' evs (r2_ok _ _ _ K) Hlive H)
     as (K' & Hp & Hil & Hreg & Hoth & Hrel0 & Hrel1 & Hm & Ht & Hv).
@@ -290,7 +289,7 @@ Lemma R_set w A e id v w' :
   R w A -> e ∈ as_issued A -> set_comp w e id v = Some w' ->
   R w' (a_upd A e (fun a => if reg_zs (as_reg A) id then a else mkA (a_mask a) (a_target a) ((id, v) :: a_vals a))).
 Proof.
-  intros HR Hiss H. pose proof HR as [K Hr Hu Hl He].
+  intros HR Hiss H. pose proof HR as [K Hr Hu He].
   assert (Hal : chk_alive w e = Some true) by (unfold set_comp in H; by destruct (chk_alive w e) as [[]|]).
   assert (Hlive : e ∈ as_live A) by (eapply chk_alive_live_r; [exact K|done|done]).
   destruct (set_comp_rok w (as_live A) (as_issued A) e id v w' K Hlive H) as (K' & Hn & Hreg & Hlk).
@@ -345,7 +344,7 @@ Lemma R_add w w' A e a :
       forall id, comp_val w' e' id = comp_val w e' id) ->
   views w' (as_reg A) e a -> R w' (a_add A e a).
 Proof.
-  intros HR Hni K' Hreg Hlocks Hlis Htb Hoth Hnew. pose proof HR as [K Hr Hu Hl He].
+  intros HR Hni K' Hreg Hlocks Hlis Htb Hoth Hnew. pose proof HR as [K Hr Hu He].
   split; simpl; try done; try congruence.
   - unfold is_locked. by rewrite Hlocks.
   - intros e0 Hin0. rewrite assoc_get_set. apply elem_of_cons in Hin0 as [->|Hin0].
@@ -359,7 +358,7 @@ Lemma R_new w A ids w' e evs :
   R w A -> Forall (fun id => id < length (as_reg A)) ids -> op_new w ids [] = (w', Ok (VEnt e), evs) ->
   R w' (a_add A e (mkA (new_mask ids) ezero [])).
 Proof.
-  intros HR Hids H. pose proof HR as [K Hr Hu Hl He]. rewrite Hr in Hids.
+  intros HR Hids H. pose proof HR as [K Hr Hu He]. rewrite Hr in Hids.
   destruct (new_entity_rok w (as_live A) (as_issued A) ids w' e evs K Hids H)
     as (Hni & K' & Hreg & Hoth & mask & rel & Hmask & Hm & Hrel & HP & Ht & Hz).
   apply exmask_add_fold in Hmask. change (mask = new_mask ids) in Hmask. subst mask.
@@ -375,7 +374,7 @@ Lemma R_new_target w A rid tg ids w' e evs :
   R w A -> Forall (fun id => id < length (as_reg A)) ids -> op_new_target w rid tg ids [] = (w', Ok (VEnt e), evs) ->
   R w' (a_add A e (mkA (new_mask ids) tg [])).
 Proof.
-  intros HR Hids H. pose proof HR as [K Hr Hu Hl He]. rewrite Hr in Hids.
+  intros HR Hids H. pose proof HR as [K Hr Hu He]. rewrite Hr in Hids.
   destruct (new_entity_target_rok w (as_live A) (as_issued A) rid tg ids w' e evs K Hids H)
     as (Hni & K' & Hreg & Hoth & mask & Hmask & Hm & Hrel & Ht & Hz).
   apply exmask_add_fold in Hmask. change (mask = new_mask ids) in Hmask. subst mask.
@@ -390,16 +389,34 @@ Proof.
 Qed.
 
 (** ** Removal *)
-Lemma remove_entity_locks w e : w_listener w = None -> w_locks (res_world (op_remove_entity w e)) = w_locks w.
+Lemma lock_unlock_unlocked tb l l1 b :
+  locks_locked l = false -> locks_lock tb l = Some (l1, b) -> locks_locked (default l1 (locks_unlock l1 b)) = false.
 Proof.
-  intros Hl. unfold op_remove_entity. destruct (is_locked w); [done|].
+  intros Hu Hl. unfold locks_locked in Hu. apply negb_false_iff, N.eqb_eq in Hu.
+  assert (Hm : l_mask l1 = setb 0 b true).
+  { unfold locks_lock in Hl. destruct (l_avail l =? 0).
+    - destruct (tb <=? l_len l); [done|]. injection Hl as <- <-. simpl. by rewrite Hu.
+    - destruct (l_bits l !! l_next l); [|done]. injection Hl as <- <-. simpl. by rewrite Hu. }
+  unfold locks_unlock. rewrite Hm, bit_setb_same. simpl. unfold locks_locked. simpl.
+  apply negb_false_iff, N.eqb_eq. unfold setb. apply N.bits_inj. intros k.
+  destruct (N.eq_dec k (N.of_nat b)) as [->|Hne].
+  - rewrite N.clearbit_eq. by rewrite N.bits_0.
+  - rewrite N.clearbit_neq by done. rewrite N.setbit_neq by done. done.
+Qed.
+
+Lemma remove_entity_unlocked w e : is_locked w = false -> is_locked (res_world (op_remove_entity w e)) = false.
+Proof.
+  intros Hu. unfold op_remove_entity. rewrite Hu.
   destruct (ent_table w e) as [[[[src row] st] sn]|]; [|done].
-  unfold ev_remove. rewrite Hl. destruct (tbl_remove _ _ _) as [st1 sw]. simpl.
-  match goal with |- w_locks (cleanup_table ?x src) = _ => set (w2 := x) end.
-  destruct (cleanup_table_side w2 src) as (_&_&_&_&_&->&_).
-  unfold w2. destruct (tbit _ _); [|done]. simpl.
-  match goal with |- w_locks (cleanup_tables_for ?x e) = _ => set (w1 := x) end.
-  by destruct (cleanup_tables_for_side w1 e) as (_&_&_&_&_&->&_).
+  destruct (tbl_remove _ _ _) as [st1 sw]. simpl.
+  match goal with |- is_locked (cleanup_table ?x src) = _ => set (w2 := x) end.
+  unfold is_locked. destruct (cleanup_table_side w2 src) as (_&_&_&_&_&->&_).
+  match goal with _ := (if tbit ?y _ then _ else _) |- _ => set (w1 := y) in * end.
+  assert (H1 : locks_locked (w_locks w1) = false).
+  { unfold w1. simpl. destruct (ev_remove w e sn (t_target st)); [exact Hu|].
+    destruct (locks_lock (w_tb w) (w_locks w)) as [[l0 b0]|] eqn:Hlk; [|exact Hu].
+    by eapply lock_unlock_unlocked. }
+  unfold w2. destruct (tbit w1 (eid e)); [|done]. simpl. by destruct (cleanup_tables_for_side w1 e) as (_&_&_&_&_&->&_).
 Qed.
 
 Lemma R_remove w A e :
@@ -407,13 +424,11 @@ Lemma R_remove w A e :
   R (res_world (op_remove_entity w e))
     (mkAS (assoc_del e (as_ents A)) (filter (fun x => x <> e) (as_live A)) (as_issued A) (as_reg A)).
 Proof.
-  intros HR Hlive Hg. pose proof HR as [K Hr Hu Hl He].
+  intros HR Hlive Hg. pose proof HR as [K Hr Hu He].
   destruct (remove_entity_rok w (as_live A) (as_issued A) e K Hlive Hg Hu) as (_ & K' & Hreg & Hoth & _).
   pose proof (step_frame_rr w (ORemoveEntity e) eq_refl) as F. simpl in F.
-  pose proof (remove_entity_locks w e Hl) as Hlocks.
   split; simpl; try done; try congruence.
-  - unfold is_locked. by rewrite Hlocks.
-  - by rewrite (rr_listener _ _ F).
+  - by apply remove_entity_unlocked.
   - intros e0 Hin0. apply elem_of_list_filter in Hin0 as [Hne Hin0]. rewrite assoc_get_del.
     rewrite (proj2 (ent_eqb_neq e0 e) Hne). destruct (He e0 Hin0) as (a0 & Ha0 & V0). exists a0. split; [done|].
     destruct (Hoth e0 Hin0 Hne) as (A1 & A2 & _ & A4). apply (views_keep w); try done. apply F.
@@ -437,7 +452,7 @@ Lemma R_register w A key isrel zs w' id :
   R w' (if id =? length (as_reg A)
         then mkAS (as_ents A) (as_live A) (as_issued A) (as_reg A ++ [mkCI key isrel zs]) else A).
 Proof.
-  intros HR H. pose proof HR as [K Hr Hu Hl He].
+  intros HR H. pose proof HR as [K Hr Hu He].
   destruct (register_rok w (as_live A) (as_issued A) key isrel zs w' id K H) as (K' & HN & Hcells & Hlocks & Hregs).
   assert (Hside : w_listener w' = w_listener w /\ w_tb w' = w_tb w /\
                   ((w' = w /\ id < length (w_reg w)) \/ (w_reg w' = w_reg w ++ [mkCI key isrel zs] /\ id = length (w_reg w)))).
@@ -455,7 +470,6 @@ Proof.
   - rewrite Hr, Nat.eqb_refl.
     split; simpl; try done.
     + unfold is_locked. by rewrite Hlocks.
-    + congruence.
     + intros e Hin. destruct (He e Hin) as (a & Ha & V). exists a. split; [done|].
       destruct (Hviews e Hin) as (A1 & A2 & A3).
       destruct (views_keep w w' _ e a V A1 A2 A3 Htb) as [V1 V2 V3 V4 V5 V6]. split; try done.
@@ -477,7 +491,7 @@ Definition op_pre (A : astate) (o : op) : Prop :=
   | ORelExchange e add _ _ _ => e ∈ as_issued A /\ ids_reg A add
   | ORelSet e _ _ | OSet e _ _ | OGet e _ | OMask e | OHas e _ | ORelGet e _ => e ∈ as_issued A
   | ORemoveEntity e => e ∈ as_issued A /\ (egen e < gen_max)%N
-  | ORegister _ _ _ | OAlive _ => True
+  | ORegister _ _ _ | OAlive _ | OSetListener _ => True
   | _ => False
   end.
 
@@ -514,6 +528,17 @@ Proof.
   destruct (exchange_target _ _ _ _ _ _); try done; destruct (find_or_create_table _ _ _ _ _) as [[? ?]|]; done.
 Qed.
 
+Lemma R_set_listener w A l : R w A -> R (w <| w_listener := l |>) A.
+Proof.
+  intros HR. pose proof HR as [[[S G] P L] Hr Hu He].
+  assert (K' : world_okr2 (w <| w_listener := l |>) (as_live A) (as_issued A)).
+  { split; [split|done|done].
+    - destruct S as [S1 S2 S3 S4]. split; [exact S1|exact S2|exact S3|exact S4].
+    - eapply (rgraph_ok_same_nodes w); try done. intros tid t Ht. exists t. done. }
+  split; try done.
+  intros e Hin. destruct (He e Hin) as (a & Ha & V). exists a. split; [done|]. by apply (views_keep w).
+Qed.
+
 Theorem rel_step w A o :
   R w A -> op_pre A o -> R (res_world (step w o)) (astep A o (snd (fst (step w o)))).
 Proof.
@@ -538,11 +563,11 @@ Proof.
   - (* ORemoveEntity *)
     destruct Hpre as [Hiss Hg].
     destruct (decide (e ∈ as_live A)) as [Hlive|Hdead].
-    + pose proof HR as [K _ Hu _ _].
+    + pose proof HR as [K _ Hu _].
       destruct (remove_entity_rok w (as_live A) (as_issued A) e K Hlive Hg Hu) as (Hok & _). rewrite Hok.
       by apply R_remove.
     + assert (Hp : op_remove_entity w e = panic w).
-      { pose proof HR as [K _ Hu _ _]. unfold op_remove_entity. rewrite Hu. unfold ent_table.
+      { pose proof HR as [K _ Hu _]. unfold op_remove_entity. rewrite Hu. unfold ent_table.
         destruct (chk_alive w e) as [[]|] eqn:Hal; try done. exfalso. apply Hdead. by eapply chk_alive_live_r. }
       rewrite Hp. done.
   - (* OAlive *) by destruct (chk_alive w e).
@@ -575,6 +600,7 @@ Proof.
       destruct (exchange_target _ _ _ _ _ _); try done; destruct (find_or_create_table _ _ _ _ _) as [[? ?]|]; done.
   - (* ORegister *)
     destruct (register_comp w key isrel zs) as [[w1 id]|] eqn:H; simpl; [|done]. by eapply R_register.
+  - (* OSetListener *) by apply R_set_listener.
 Qed.
 
 (** ** Histories *)
@@ -603,7 +629,6 @@ Proof.
   - by apply world_init_rok.
   - done.
   - done.
-  - done.
   - intros e He. by apply elem_of_nil in He.
 Qed.
 
@@ -630,7 +655,7 @@ Lemma ent_table_views w A e tid row t nd :
     n_ids nd = mask_ids (w_tb w) (n_mask nd) /\ relP w (n_mask nd) (n_rel nd) /\
     (forall id, comp_val w e id = col_of nd id ≫= fun c => r !! c).
 Proof.
-  intros HR Hiss H. pose proof HR as [K Hr Hu Hl He]. unfold ent_table in H.
+  intros HR Hiss H. pose proof HR as [K Hr Hu He]. unfold ent_table in H.
   destruct (chk_alive w e) as [[]|] eqn:Hal; try done.
   assert (Hlive : e ∈ as_live A) by (by eapply chk_alive_live_r).
   split; [done|]. destruct (He e Hlive) as (a & Ha & V). exists a.
@@ -693,7 +718,7 @@ Proof.
         rewrite Hm in Hx. congruence. }
       rewrite Hnone in Hg. by injection Hg as <-.
   - intros w' b evs H. simpl in H. destruct (chk_alive w e) as [b0|] eqn:Hal; [|done]. injection H as _ <-.
-    destruct HR as [[_ [frees P] _] _ _ _ _].
+    destruct HR as [[_ [frees P] _] _ _ _].
     pose proof (Proofs.PoolInv.pool_alive_iff (w_pool w) _ _ frees e P Hiss) as Hiff.
     unfold pool_alive in Hiff. unfold chk_alive in Hal. rewrite Hal in Hiff. simpl in Hiff.
     destruct b0.
